@@ -1,57 +1,17 @@
-import Lean.Data.Json
-import FlowRecord.Model.Detect
+import FlowRecord.Drive.Util
+import FlowRecord.Drive.C11
 /-!
 Line protocol of the model driver: one JSON object per input line (`{"op": ..., ...}`), one JSON object per
-output line. Byte strings travel as lowercase hex, big integers as decimal strings.
+output line. Handlers live in `FlowRecord/Drive/*.lean`; register each one in `handlers` below.
 -/
 open Lean
 
 namespace FlowRecord.Driver
+open FlowRecord.Drive
 
-def hexVal (c : Char) : Option Nat :=
-  if '0' ≤ c ∧ c ≤ '9' then some (c.toNat - '0'.toNat)
-  else if 'a' ≤ c ∧ c ≤ 'f' then some (c.toNat - 'a'.toNat + 10)
-  else if 'A' ≤ c ∧ c ≤ 'F' then some (c.toNat - 'A'.toNat + 10)
-  else none
-
-def unhexList : List Char → Option (List UInt8)
-  | [] => some []
-  | [_] => none
-  | a :: b :: rest => do
-    let x ← hexVal a
-    let y ← hexVal b
-    let r ← unhexList rest
-    pure (UInt8.ofNat (x * 16 + y) :: r)
-
-def unhex (s : String) : Option (List UInt8) := unhexList s.toList
-
-def hexDigit (n : Nat) : Char := if n < 10 then Char.ofNat (48 + n) else Char.ofNat (87 + n)
-
-def hex (bs : List UInt8) : String :=
-  String.ofList (bs.foldr (fun b acc => hexDigit (b.toNat / 16) :: hexDigit (b.toNat % 16) :: acc) [])
-
-def err (msg : String) : Json := Json.mkObj [("error", Json.str msg)]
-
-def getStr (j : Json) (k : String) : Except String String := j.getObjValAs? String k
-def getHex (j : Json) (k : String) : Except String (List UInt8) := do
-  let s ← getStr j k
-  match unhex s with
-  | some b => pure b
-  | none => throw s!"bad hex in {k}"
-
-def handleDetect (op : String) (j : Json) : Option (Except String Json) :=
-  match op with
-  | "sniff" => some do
-      let bs ← getHex j "hex"
-      let codec := Detect.sniffCodec (fun _ => true) bs
-      let container := Detect.sniffContainer (fun _ => true) bs
-      pure (Json.mkObj [("codec", Json.str codec), ("container", Json.str container)])
-  | "pathcodec" => some do
-      let p ← getStr j "path"
-      pure (Json.mkObj [("codec", Json.str (Detect.pathCodec p.toList))])
-  | _ => none
-
-def handlers : List (String → Json → Option (Except String Json)) := [handleDetect]
+def handlers : List Handler := [
+  handleC11
+]
 
 def handle (j : Json) : Json :=
   match j.getObjValAs? String "op" with
